@@ -19,6 +19,8 @@ import (
 	"github.com/verily-src/fhirpath-go/fhirpath/system"
 	"github.com/verily-src/fhirpath-go/internal/fhir"
 	"github.com/verily-src/fhirpath-go/internal/fhirconv"
+	"github.com/verily-src/fhirpath-go/internal/narrow"
+	"golang.org/x/exp/constraints"
 	"google.golang.org/protobuf/proto"
 )
 
@@ -1052,6 +1054,122 @@ func c15RunTemp(ctx *Ctx, c c15TempCase) {
 	}
 }
 
+// --- narrowing from named integer types ----------------------------------------------------
+
+// The constraint of narrow.ToInteger admits every type whose underlying type is an integer
+// (time.Duration, system.Integer, proto enums …).  A named source type narrows like its
+// underlying type.  (Named *target* types are refused for every value by the pinned tree - its
+// range switch matches predeclared types only; they are outside the 12×12 pairs the property
+// quantifies over and are not asserted.)
+type c15Celsius int16
+type c15UID uint32
+
+type c15NamedCase struct {
+	From string `json:"from"`
+	V    string `json:"v"`
+}
+
+func c15EnumNamed(yield func(c15NamedCase)) {
+	vals := map[string][]string{
+		"time.Duration":  {"-9223372036854775808", "-2147483649", "-2147483648", "-32769", "-129", "-128", "-5", "-1", "0", "1", "127", "128", "255", "256", "65535", "65536", "2147483647", "2147483648", "4294967295", "4294967296", "9223372036854775807"},
+		"system.Integer": {"-2147483648", "-32769", "-32768", "-129", "-128", "-1", "0", "1", "127", "128", "255", "256", "32767", "32768", "65535", "65536", "2147483647"},
+		"celsius(int16)": {"-32768", "-129", "-128", "-40", "-1", "0", "127", "128", "255", "256", "32767"},
+		"uid(uint32)":    {"0", "1", "127", "128", "255", "256", "65535", "65536", "2147483647", "2147483648", "4294967295"},
+	}
+	for _, f := range []string{"time.Duration", "system.Integer", "celsius(int16)", "uid(uint32)"} {
+		for _, v := range vals[f] {
+			yield(c15NamedCase{From: f, V: v})
+		}
+	}
+}
+
+type c15NarrowOut struct {
+	to  string
+	val *big.Int
+	ok  bool
+}
+
+func c15NarrowFrom[F constraints.Integer](v F) []c15NarrowOut {
+	var out []c15NarrowOut
+	s := func(to string, x int64, ok bool) { out = append(out, c15NarrowOut{to, big.NewInt(x), ok}) }
+	u := func(to string, x uint64, ok bool) { out = append(out, c15NarrowOut{to, new(big.Int).SetUint64(x), ok}) }
+	{
+		r, ok := narrow.ToInteger[int8](v)
+		s("int8", int64(r), ok)
+	}
+	{
+		r, ok := narrow.ToInteger[int16](v)
+		s("int16", int64(r), ok)
+	}
+	{
+		r, ok := narrow.ToInt32(v)
+		s("int32", int64(r), ok)
+	}
+	{
+		r, ok := narrow.ToInt64(v)
+		s("int64", r, ok)
+	}
+	{
+		r, ok := narrow.ToInt(v)
+		s("int", int64(r), ok)
+	}
+	{
+		r, ok := narrow.ToInteger[uint8](v)
+		u("uint8", uint64(r), ok)
+	}
+	{
+		r, ok := narrow.ToUint16(v)
+		u("uint16", uint64(r), ok)
+	}
+	{
+		r, ok := narrow.ToUint32(v)
+		u("uint32", uint64(r), ok)
+	}
+	{
+		r, ok := narrow.ToUint64(v)
+		u("uint64", r, ok)
+	}
+	{
+		r, ok := narrow.ToUint(v)
+		u("uint", uint64(r), ok)
+	}
+	return out
+}
+
+func c15RunNamed(ctx *Ctx, c c15NamedCase) {
+	v := bigS(c.V)
+	var outs []c15NarrowOut
+	g := guard(func() {
+		switch c.From {
+		case "time.Duration":
+			outs = c15NarrowFrom(time.Duration(v.Int64()))
+		case "system.Integer":
+			outs = c15NarrowFrom(system.Integer(v.Int64()))
+		case "celsius(int16)":
+			outs = c15NarrowFrom(c15Celsius(v.Int64()))
+		case "uid(uint32)":
+			outs = c15NarrowFrom(c15UID(v.Uint64()))
+		}
+	})
+	ctx.Eval(c.From+c.V, true, "family:narrowing-named-source", "from:"+c.From)
+	if g.Panic != "" {
+		ctx.Fail("narrowing from a named type: panic@"+g.Panic, fmt.Sprint(c))
+		return
+	}
+	for _, o := range outs {
+		tr := intRanges[o.to]
+		fits := v.Cmp(bigS(tr[0])) >= 0 && v.Cmp(bigS(tr[1])) <= 0
+		if o.ok != fits {
+			ctx.Fail("narrowing from a named integer type: success differs from representability", fmt.Sprintf("%s(%s) → %s: ok=%v, representable=%v", c.From, c.V, o.to, o.ok, fits))
+			return
+		}
+		if fits && o.val.Cmp(v) != 0 {
+			ctx.Fail("narrowing from a named integer type: wrong value", fmt.Sprintf("%s(%s) → %s = %s", c.From, c.V, o.to, o.val))
+			return
+		}
+	}
+}
+
 func TestC15(t *testing.T) {
 	r := newRec("C15",
 		"five round-trip families: (string-escapes) rapid strings of 0..10 items over an alphabet with every escape target, quotes, backslash, non-ASCII/BMP/astral characters, rendered with a harness-side escaper that randomly picks the raw, simple-escape or \\uXXXX spelling; (literals) enumerated and rapid Date/DateTime/Time texts over precision × fraction digits 0..6 × offset forms, Integer/Decimal texts with leading/trailing zeros up to 30 digits, quantities with every calendar keyword and UCUM units: the literal evaluates to the denoted value, its String() re-parses to an equal value of the same precision/offset and `x = parse(x.String())` is true; (system-proto) every temporal/numeric/quantity pool value through ToProto*/…FromProto/From; (element-to-system) generated integer/unsignedInt/positiveInt/decimal elements around the int32 and uint32 limits through system.From: representable values convert to the same number, others are refused; (fhir-helpers) rapid FHIR date/dateTime/instant/time texts through fhir.Parse* and fhirconv.*ToString both ways and against the google/fhir JSON rendering in a carrier resource; (narrowing) all 11×11 instantiations of narrow.ToInteger with every 8/16-bit source value and ±2 around every power of two and type limit for wider sources, and fhirconv.ToInteger for boundary FHIR integers.  non-trivial = the representation is not the naive one (an escape, a fraction, an offset, sub-day precision, > 15 digits, a quantity) or From ≠ To; distinct = FNV-64 of the case",
@@ -1065,6 +1183,7 @@ func TestC15(t *testing.T) {
 		Stage[c15TempCase]{Name: "temporal-element-to-system", Gen: c15GenTemp, Run: c15RunTemp, N: pick(12000, 200000)},
 		Stage[c15HelperCase]{Name: "fhir-helpers", Gen: c15GenHelper, Run: c15RunHelper, N: pick(18000, 150000)},
 		Stage[c15NarrowCase]{Name: "narrowing", Enum: c15EnumNarrow, Run: c15RunNarrow},
+		Stage[c15NamedCase]{Name: "narrowing-named-sources", Enum: c15EnumNamed, Run: c15RunNamed},
 		Stage[c15FhirIntCase]{Name: "fhirconv-integer", Enum: c15EnumFhirInt, Run: c15RunFhirInt},
 	)
 }
